@@ -64,6 +64,9 @@ package function
 //@   ensures[C18] ids-index-the-series-list: result1 == nil && !isnil(result0) ==> batchOK(result0, 0, len(result0), len(o.series))
 //@   ensures[C06] scalar-delivers-one-sample-per-step: result1 == nil && !isnil(result0) && o.funcExpr.Func.Name == "scalar" ==>
 //@       forall k in 0..len(result0) :: len(result0[k].Samples) == 1
+// Every function but last_over_time drops the metric name of its series, wherever it stands in the label set (C06):
+//@   at line "o.series[i] = lbls" assert[C06] metric-name-dropped-from-the-output-series: o.funcExpr.Func.Name != "last_over_time" ==>
+//@       forall k in 0..len(lbls) :: lbls[k].Name != "__name__"
 //@   at line "scalarIndex := 0" assume sibling-lockstep-batch-fits: len(vectors) <= len(o.scalarPoints)
 //@   at line "for batchIndex := range vectors {" assume sibling-lockstep: len(scalarVectors) == 0 || len(scalarVectors) == len(vectors)
 //@   at line "o.scalarPoints[batchIndex][scalarIndex] = val" assert[C06] scalar-argument-of-this-step-or-NaN:
@@ -158,11 +161,28 @@ package function
 //@   requires[C17] only-private-copies-are-edited: isnil(l) || l.lowned
 //@   assigns elems(github.com/prometheus/prometheus/model/labels.Label)@l
 //@   ensures isnil(result0) || result0.lowned
+// The result is the label set without its metric name (C03, C06: functions drop the metric name): in a
+// label set with pairwise different names no label called __name__ is left, and nothing else is lost.
+//@   ensures[C03,C06] metric-name-is-gone: (forall a in 0..len(l) :: forall b in 0..len(l) :: a != b ==> old(l[a].Name) != old(l[b].Name)) ==>
+//@       forall k in 0..len(result0) :: result0[k].Name != "__name__"
+//@   ensures[C03,C06] at-most-one-label-removed: len(result0) == len(l) || len(result0) == len(l) - 1
+//@   ensures[C03,C06] nothing-removed-without-a-metric-name: (forall j in 0..len(l) :: old(l[j].Name) != "__name__") ==> len(result0) == len(l) &&
+//@       (forall j in 0..len(l) :: result0[j].Name == old(l[j].Name) && result0[j].Value == old(l[j].Value))
 //@ func dropLabel
 //@   requires[C17] only-private-copies-are-edited: isnil(l) || l.lowned
 //@   assigns elems(github.com/prometheus/prometheus/model/labels.Label)@l
 //@   ensures result-is-the-same-buffer: ref(result0) == ref(l) || isnil(result0)
-//@   loop 0 invariant true
+//@   ghostvar p int = -1
+//@   at line "lbl := l[i]" set p = i
+//@   at line "return l[:0], l[0]" set p = 0
+// Exactly the first label with that name is removed, the others keep their order:
+//@   ensures[C03,C05,C06] not-found-means-unchanged: p == -1 ==> len(result0) == len(l) && (forall j in 0..len(l) :: old(l[j].Name) != name) &&
+//@       (forall j in 0..len(l) :: result0[j].Name == old(l[j].Name) && result0[j].Value == old(l[j].Value))
+//@   ensures[C03,C05,C06] first-occurrence-removed: p != -1 ==> 0 <= p && p < len(l) && (forall q in p..p+1 :: old(l[q].Name) == name) && len(result0) == len(l) - 1 &&
+//@       (forall j in 0..p :: old(l[j].Name) != name && result0[j].Name == old(l[j].Name) && result0[j].Value == old(l[j].Value)) &&
+//@       (forall j in p..len(l)-1 :: result0[j].Name == old(l[j+1].Name) && result0[j].Value == old(l[j+1].Value))
+//@   loop 0 invariant 0 <= rangeindex + 1 && rangeindex + 1 <= len(l) && p == -1 && (forall j in 0..rangeindex+1 :: l[j].Name != name) &&
+//@       (forall j in 0..len(l) :: l[j].Name == old(l[j].Name) && l[j].Value == old(l[j].Value))
 
 // ---- histogram.go: histogram_quantile (C06, C07, C18) --------------------------------------------
 // processInputSeries: one output vector per input vector, stamped with the same step - also for a
